@@ -111,4 +111,6 @@ def integrate(vc):
                          z3.ForAll([i], z3.Implies(z3.And(i >= 0, i < nT), grid.get((i + 1,)) == ts.get((i,))))))
         vc.ensure('%s: Jacobian is the model\'s jacobian(state, t) in row-derivative layout' % entry,
                   k.get('Dfun') is self.fields['jacobian'] and k.get('col_deriv') is False)
+        vc.ensure('%s: odeint is given a step budget of at least 10000 internal steps per output time (its default of 500 silently leaves rows unfilled)' % entry,
+                  isinstance(k.get('mxstep'), int) and k.get('mxstep') >= 10000)
         vc.ensure('%s: returns odeint\'s solution array (origin row first)' % entry, out.value is result[0])
